@@ -61,6 +61,8 @@ struct Cfg {
   int backups = 1;
   bool dump_every_step = false;
   bool mask = false, turbulence = false, live_output = false;
+  bool gravity = false, cooling = false, restart_midway = false;
+  int live_mask = 7; // which live outputs are switched on
   bool radiation = false;
   long packets = 200;
   int seed = 42;
@@ -116,6 +118,10 @@ struct Cfg {
     j["mask"] = mask;
     j["turbulence"] = turbulence;
     j["live_output"] = live_output;
+    j["gravity"] = gravity;
+    j["cooling"] = cooling;
+    j["restart_midway"] = restart_midway;
+    j["live_mask"] = live_mask;
     j["radiation"] = radiation;
     j["packets"] = (long long)packets;
     j["seed"] = seed;
@@ -165,6 +171,10 @@ struct Cfg {
     c.mask = j.at("mask").as_bool();
     c.turbulence = j.at("turbulence").as_bool();
     c.live_output = j.at("live_output").as_bool();
+    c.gravity = j.at("gravity").as_bool();
+    c.cooling = j.at("cooling").as_bool();
+    c.restart_midway = j.at("restart_midway").as_bool();
+    c.live_mask = (int)j.at("live_mask").as_int(7);
     c.radiation = j.at("radiation").as_bool();
     c.packets = j.at("packets").as_int(200);
     c.seed = (int)j.at("seed").as_int(42);
@@ -244,9 +254,16 @@ struct Cfg {
       << vec(centre, "m") << "\n  luminosity: 1.e46 s^-1\n";
     o << "PhotonSourceSpectrum:\n  type: Monochromatic\n  frequency: 13.6 eV\n";
     o << "ContinuousPhotonSource:\n  type: None\n";
-    o << "CrossSections:\n  type: FixedValue\n  hydrogen_0: 6.3e-18 cm^2\n";
-    o << "RecombinationRates:\n  type: FixedValue\n  hydrogen_1: 4.e-13 cm^3 "
-         "s^-1\n";
+    if (radiation) {
+      // realistic atomic data when the radiation step runs (all-zero metal
+      // rates would give 0/0 metal fractions)
+      o << "CrossSections:\n  type: Verner\n";
+      o << "RecombinationRates:\n  type: Verner\n";
+    } else {
+      o << "CrossSections:\n  type: FixedValue\n  hydrogen_0: 6.3e-18 cm^2\n";
+      o << "RecombinationRates:\n  type: FixedValue\n  hydrogen_1: 4.e-13 "
+           "cm^3 s^-1\n";
+    }
     o << "TemperatureCalculator:\n  do temperature calculation: false\n";
     o << "TaskBasedRadiationHydrodynamicsSimulation:\n";
     o << sfmt("  total time: %.17g s\n", total_time);
@@ -274,6 +291,8 @@ struct Cfg {
     o << "  random seed: " << seed << "\n";
     o << "  output folder: " << dir << "\n";
     o << "  use mask: " << (mask ? "true" : "false") << "\n";
+    o << "  external gravity: " << (gravity ? "true" : "false") << "\n";
+    o << "  do radiative cooling: " << (cooling ? "true" : "false") << "\n";
     o << "  turbulent forcing: " << (turbulence ? "true" : "false") << "\n";
     o << "RestartManager:\n  path: " << dir << "\n  output interval: "
       << (dump_every_step ? "-1. s" : "1.e30 s")
@@ -285,24 +304,34 @@ struct Cfg {
       double mc[3];
       for (int k = 0; k < 3; ++k)
         mc[k] = anchor[k] + 0.5 * sides[k];
-      o << "HydroMask:\n  type: FixedProfile\n  position: " << vec(mc, "m")
-        << sfmt("\n  radius: %.17g m\n", 0.2 * sides[0])
-        << sfmt("  density: %.17g m^-3\n", density)
-        << "  velocity: [0. m s^-1, 0. m s^-1, 0. m s^-1]\n"
-        << sfmt("  pressure: %.17g kg m^-1 s^-2\n",
-                density * 1.67e-27 * 8.3e3 * temperature)
-        << "\n";
+      o << "HydroMask:\n  type: RescaledIC\n  center: " << vec(mc, "m")
+        << sfmt("\n  radius: %.17g m\n", 0.3 * sides[0])
+        << "  scale factor density: 0.5\n  scale factor velocity: 1.\n  "
+           "scale factor pressure: 0.5\n"
+        << sfmt("  delta t: %.17g s\n", dt > 0. ? 2. * dt : total_time / 16.);
     }
     if (turbulence) {
-      o << "AlveliusTurbulenceForcing:\n  minimum wave number: 1.\n  maximum "
-           "wave number: 3.\n  peak forcing wave number: 2.5\n  concentration "
-           "factor: 0.2\n  power forcing: 1.e-10 m^2 s^-3\n  random seed: 42\n"
+      o << "TurbulenceForcing:\n  minimum wave number: 1.\n  maximum wave "
+           "number: 3.\n  peak forcing wave number: 2.5\n  concentration "
+           "factor: 0.2\n  forcing power: 1.e-6 m^2 s^-3\n  random seed: 42\n"
         << sfmt("  time step: %.17g s\n", dt > 0. ? dt : total_time / 64.);
     }
     if (live_output) {
-      o << "LiveOutputManager:\n  enable output: true\n"
-        << sfmt("  output interval: %.17g s\n", dt > 0. ? 2. * dt : total_time / 8.)
-        << "\n";
+      o << "LiveOutputManager:\n  enabled: true\n"
+        << "  output surface density: " << ((live_mask & 1) ? "true" : "false")
+        << "\n  output ionized surface density: "
+        << ((live_mask & 2) ? "true" : "false") << "\n  output density PDF: "
+        << ((live_mask & 4) ? "true" : "false") << "\n  output velocity PDF: "
+        << ((live_mask & 8) ? "true" : "false") << "\n"
+        << sfmt("  output interval: %.17g s\n",
+                dt > 0. ? 2. * dt : total_time / 8.);
+    }
+    if (gravity) {
+      double gp[3];
+      for (int k = 0; k < 3; ++k)
+        gp[k] = anchor[k] + 0.47 * sides[k];
+      o << "ExternalPotential:\n  type: PointMass\n  position: " << vec(gp, "m")
+        << "\n  mass: 1.e30 kg\n";
     }
     const std::string path = dir + "/" + name;
     std::ofstream f(path);
